@@ -112,6 +112,7 @@ def gen_site(rng: random.Random, scratch: str, name_classes=("plain", "spaces", 
     m.add(b"/gm/local.txt", "doc", b"local\n", mime="text/plain", tags=["file"])
     gmtext = ("Welcome to the map\n\n0Local file\tlocal.txt\n0Absolute\t/umn/one.txt\n"
               "1Remote dir\t/x\tgopher.example.org\t70\n1Up\t/umn\nhWeb\tURL:http://example.org/a?b=c\n"
+              "hWeb query\tURL:http://example.org/find?q=gopher&lang=en&x=<1>\nhTick\tURL:http://example.org/it's&amp;\n"
               "7Search it\t/gm/local.txt\n"
               "hMail the admin\tURL:mailto:admin@example.org\nhNews group\tURL:news:comp.infosystems.gopher\n"
               "0local.txt\t\n0Last line\tlocal.txt\n")
